@@ -585,7 +585,9 @@ def run_for(prop, tier, only=None):
         "Verus: assumed contracts (external_body; bodies not verified by Verus): " + ", ".join(trusted)
         + " - item_read: the move out of a MaybeUninit cell (cell treated as vacated afterwards) is an ownership discipline, not a fact about bytes; "
           "insert_ii / insert_ii_for_full: chains over iter_mut() whose skipped items have unresolved prophecies (their contract insert_post is discharged on the real bodies by the Kani units kh_insert_ii*_post_* at N in {1,2,3,9}); "
-          "Map::new: array-fill with a non-Copy element is outside this Verus; Iter::next(trait): the kept `impl Iterator for Iter` is assumed to obey vstd's iterator laws (its inherent copy is verified one step at a time)",
+          "Map::new: array-fill with a non-Copy element is outside this Verus; Iter::next(trait): the kept `impl Iterator for Iter` is assumed to obey vstd's iterator laws (its inherent copy is verified one step at a time); "
+          "Iter::size_hint / IterMut::size_hint: delegations to core's slice::Iter(Mut)::size_hint, which vstd leaves unspecified and for which a second specification is rejected as a duplicate "
+          "(assumed: exact remaining length; discharged by the Kani units c09_iter_* / c09_iter_mut_* 'len/size_hint are exact before every step')",
         "Verus: assumed axioms / clauses of the second external specification of Iterator: " + ", ".join(scan["axioms"]) + "; enumerate (same items, each paired with its position), by_ref (identity)",
         "Verus: assumed specifications of core functions vstd does not cover: " + ", ".join(scan["assume_specification"])
         + "; Borrow::borrow is specified only under the hypothesis obeys_borrow (deterministic borrow_spec)",
